@@ -48,7 +48,7 @@ def lift_masks(v):
 
 def reference(method):
     d = sub(TH, HAT)
-    p0 = mul(App("sum", (cmp0("le", to_poly(d)),), AX0), div(Const(1), App("sum", (App("not", (App("isnan", (TH,)),)),), AX0)))
+    p0 = mul(App("sum", (cmp0("le", to_poly(d)),), AX0), div(Const(1), sub(App("len", (TH,)), App("sum", (App("isnan", (TH,)),), AX0))))   # #{not NaN} in its normal form N - #{NaN}
     z0 = mk_app("ppf", [p0])
     zl, zu = mk_app("ppf", [div(AL, Const(2))]), mk_app("ppf", [sub(Const(1), div(AL, Const(2)))])
     if method == "bc":
